@@ -164,6 +164,10 @@ def rand_leaf(rng, cmp=False):
         return {"op": "wild", "f": f, "t": pat}
     if k < 0.9:
         lo, hi = rword(rng), rword(rng)
+        if rng.random() < 0.5:
+            # bounds that contain the letters of the range keyword: [ato TO b], [toa TO cto], [to TO to]
+            lo = rng.choice([[7, 8], [7, 8] + lo, lo + [7, 8], lo + [7, 8], lo[:1] + [7, 8] + lo[1:]])
+            hi = rng.choice([[7, 8], [7, 8] + hi, hi + [7, 8], hi])
         return {"op": "range", "f": f, "lo": lo, "hi": hi, "haslo": rng.random() < 0.8, "hashi": rng.random() < 0.8,
                 "loexcl": rng.random() < 0.4, "hiexcl": rng.random() < 0.4}
     lo, hi = sorted([rng.randrange(-4, 9), rng.randrange(-4, 9)])
@@ -257,6 +261,11 @@ def semantic(run, rng, nworlds, nexprs):
     for wi in range(nworlds):
         n = rng.randrange(5, 10)
         adocs = {"k%d" % i: world.rand_doc(rng, nletters=3, maxtoks=5, gaps=False) for i in range(n)}
+        for d in adocs.values():
+            # words around the range keyword: to, toa, bto, ...
+            for f in world.TEXT_FIELDS:
+                if d["t"].get(f) and rng.random() < 0.3:
+                    d["t"][f] = d["t"][f] + [rng.choice([[7, 8], [7, 8, rng.randrange(1, 4)], [rng.randrange(1, 4), 7, 8]])]
         plan = world.rand_plan(rng, adocs.keys(), max_segments=3)
         w = world.World(adocs, plan, storage="ram")
         try:
